@@ -6,6 +6,13 @@ package rel
 
 //@ globalfact byteReprs len(byteReprs) == 256
 //@ globalfact reprEscapes len(reprEscapes) == 32
+// ASSUMED about package initialisation: byteReprs[k] is the decimal text of k; the two regular expressions are the
+// ones compiled from the patterns in the source (reKind: 80_codec.smt2; the pattern TEXT is not checked)
+//@ globalfact byteReprs forall k in 0..256 :: bytesStr(row(byteReprs[k]), byteReprs[k].off, len(byteReprs[k])) == decByte(k)
+//@ globalfact renderableBytesRE reKind(renderableBytesRE) == 1
+//@ globalfact identRE reKind(identRE) == 2
+// allRend(s): every byte of the byte slice s can be carried by the text form <<'...'>> (and there is at least one)
+//@ spec allRend(s) = len(s) > 0 && (forall k in 0..len(s) :: rendByte(s[k]))
 
 // seqOpen(w0, off, open): w0, then `off\` exactly when off != 0, then the opening bracket
 //@ spec seqOpen(w0, off, open) = sconcat(off != 0 ? sconcat(w0, offRepr(off)) : w0, open)
@@ -49,7 +56,13 @@ package rel
 //@   assigns fresh-only
 //@   modifies wout
 //@   ensures[C12] offset: verb == 'v' ==> pfx(seqOpen(old(wout), b.offset, "<<"), wout)
+// which form is printed is decided by ALL bytes: the text form only if every byte is a renderable ASCII byte (any
+// other byte would be changed by the rune-wise escaping of reprEscape); otherwise the byte-list form, which is
+// exactly the decimal text of every byte in order, separated by ", " (so every byte is recoverable)
+//@   ensures[C12] list: (verb == 'v' && !allRend(b.b)) ==> wout == sconcat(byteList(sconcat(old(wout), "<<"), ", ", row(b.b), b.b.off, len(b.b)), ">>")
 //@   loop 0 invariant pfx(sconcat(old(wout), "<<"), wout)
+//@   loop 0 invariant bounds: 0 <= $idx && $idx <= len(b.b)
+//@   loop 0 invariant[C12] items: wout == byteList(sconcat(old(wout), "<<"), ", ", row(b.b), b.b.off, $idx)
 
 // String.Format (repr form): offset prefix, then the escaped text.
 //@ func reprString(str, w)
@@ -61,3 +74,32 @@ package rel
 // character: the printed text cannot distinguish a hole from U+FFFD. Stated as a clause over the input
 // (it cannot be a precondition: the strings are user-controlled, e.g. "abc" without (@:1, @char:98)).
 //@   ensures[C12] holes: forall k in 0..len(str.s) :: str.s[k] >= 0
+
+// ---- attribute names (rel/value_tuple.go) ---------------------------------------------------------------------------
+// bareIdent(name): name is a bare identifier of the GRAMMAR (syntax/arrai.wbnf, rule IDENT, third alternative:
+// [$@A-Za-z_][0-9$@A-Za-z_]* — ASCII only; identStart/identCont: 80_codec.smt2)
+//@ spec bareIdent(name) = len(name) > 0 && identStart(name[0]) && (forall k in 0..len(name) :: identCont(name[k]))
+// A name is printed bare only if it is a bare identifier; every other name goes through the quoting printer: the
+// result is then the content of the local builder (ghost sbout = what (*strings.Builder).String returns), never the
+// raw name.
+// not claimed: the quoted text itself (reprEscape writes to the ghost `wout`, the builder is read through `sbout`: two
+// ghosts for the same object in this one function); keywords of the grammar (e.g. a name `let`) are not excluded.
+//@ func TupleNameRepr(name)
+//@   tags C12, C10
+//@   assigns fresh-only
+//@   modifies wout
+//@   ensures[C12] quoted: !bareIdent(name) ==> result == sbout
+//@   ensures[C12] bare: bareIdent(name) ==> result == name
+
+// ---- Dict.Format (rel/value_set_dict.go) ----------------------------------------------------------------------------
+// Prints `{k: v, ...}`, one `k: v` per (key, value) pair. The reader rejects a repeated key ("duplicate key"), so the
+// `{k: v}` form can only be used for a dict without multi-valued keys: stated as a clause over the input (user data: a
+// relation {(@: 1, @value: 2), (@: 1, @value: 3)} is held as a Dict with a multipleValues entry). It fails: finding.
+// (stub moved from verif_contracts_c10.go; no frame claimed, as there)
+//@ func (Dict).Format(d; f, verb)
+//@   tags C12, C10
+//@   fnparam * pure
+//@   modifies wout
+//@   ensures[C12] open: pfx(sconcat(old(wout), "{"), wout)
+//@   ensures[C12] multikey: forall k: Val :: vmhas(d.m.tree.root, k) ==> !(vmget(d.m.tree.root, k) is multipleValues)
+//@   loop 0 invariant pfx(sconcat(old(wout), "{"), wout)
